@@ -7,6 +7,7 @@ import (
 	"math/big"
 	"math/rand/v2"
 	"runtime"
+	"strconv"
 	"strings"
 	"sync"
 	"sync/atomic"
@@ -29,9 +30,9 @@ func init() {
 	fw.Register(&fw.Property{
 		ID: "C20",
 		Meta: func(tier string) fw.Meta {
-			fl := []string{"plain", "race", "cover"}
+			fl := []string{"plain", "race", "cover", "386"}
 			if tier == "thorough" {
-				fl = []string{"plain", "race", "asan", "cover"}
+				fl = []string{"plain", "race", "asan", "cover", "386"}
 			}
 			return fw.Meta{
 				Flavours: fl,
@@ -386,9 +387,30 @@ func c20natural(c *fw.Ctx, strs []string, lo, hi int) {
 	c.Add("natural_triples", triples)
 }
 
+// c20maxDigits: digit runs are kept short enough for the platform's int (the
+// statement's domain; see Assumptions): 18 digits with 64-bit ints, 9 with 32.
+var c20maxDigits = map[int]int{64: 18, 32: 9}[strconv.IntSize]
+
+// capDigitRuns shortens every digit run of s to at most max digits.
+func capDigitRuns(s string, max int) string {
+	var sb strings.Builder
+	run := 0
+	for i := 0; i < len(s); i++ {
+		if s[i] >= '0' && s[i] <= '9' {
+			if run++; run > max {
+				continue
+			}
+		} else {
+			run = 0
+		}
+		sb.WriteByte(s[i])
+	}
+	return sb.String()
+}
+
 func c20numeric(c *fw.Ctx, r *rand.Rand) {
 	digits := func() string {
-		n := 1 + r.IntN(18)
+		n := 1 + r.IntN(c20maxDigits)
 		b := make([]byte, n)
 		for i := range b {
 			b[i] = byte('0' + r.IntN(10))
@@ -408,7 +430,7 @@ func c20numeric(c *fw.Ctx, r *rand.Rand) {
 	d1, d2 := digits(), digits()
 	if r.IntN(4) == 0 {
 		d2 = strings.Repeat("0", r.IntN(3)) + strings.TrimLeft(d1, "0")
-		if len(d2) > 18 || d2 == "" {
+		if len(d2) > c20maxDigits || d2 == "" {
 			d2 = d1
 		}
 	}
@@ -420,9 +442,9 @@ func c20numeric(c *fw.Ctx, r *rand.Rand) {
 		base := new(big.Int)
 		switch r.IntN(4) {
 		case 0:
-			base.Exp(big.NewInt(10), big.NewInt(int64(1+r.IntN(17))), nil)
+			base.Exp(big.NewInt(10), big.NewInt(int64(1+r.IntN(c20maxDigits-1))), nil)
 		case 1:
-			base.Lsh(big.NewInt(1), uint(20+r.IntN(39)))
+			base.Lsh(big.NewInt(1), uint(20+r.IntN(strconv.IntSize-25)))
 		default:
 			base.SetString(strings.TrimLeft(d1, "0")+"0", 10)
 		}
@@ -430,14 +452,14 @@ func c20numeric(c *fw.Ctx, r *rand.Rand) {
 		other := new(big.Int).Add(base, delta)
 		step := big.NewInt(int64(1 + r.IntN(3)*r.IntN(60)))
 		third := new(big.Int).Add(other, step)
-		if other.Sign() > 0 && len(third.String()) <= 18 {
+		if other.Sign() > 0 && len(third.String()) <= c20maxDigits {
 			d1 = strings.Repeat("0", r.IntN(3)) + other.String()
 			d2 = third.String()
 			suf, suf2 = "z", "a"
 			if r.IntN(2) == 0 {
 				d1, d2, suf, suf2 = d2, d1, suf2, suf
 			}
-			if len(d1) > 18 {
+			if len(d1) > c20maxDigits {
 				d1 = strings.TrimLeft(d1, "0")
 			}
 			c.Add("natural_close_value_pairs", 1)
@@ -809,9 +831,7 @@ func runC20(c *fw.Ctx) {
 					}
 				}
 				P := string(pb)
-				if n := len(P) - len(strings.TrimRight(P, "0123456789")); n > 12 {
-					P = P[:len(P)-n+12] // keep digit runs short enough for int
-				}
+				P = capDigitRuns(P, min(12, c20maxDigits-3)) // keep digit runs (with up to 3 more digits from the tails) short enough for int
 				for _, t1 := range tails {
 					for _, t2 := range tails {
 						a, b := P+t1, P+t2
